@@ -1145,6 +1145,11 @@ func c19(c *Ctx) {
 	for k := 0; k < M3 && !c19wedged; k++ {
 		c19multiRandom(c, r)
 	}
+
+	// ---------- 9. overlapping registrations of one name (wire kind 7) ----------
+	if !c19wedged {
+		c19conc(c, r.Fork())
+	}
 	if c19dir != "" {
 		os.RemoveAll(c19dir)
 	}
